@@ -232,6 +232,10 @@ class MultiStepReplayBuffer(ReplayBuffer):
             assert done_key is not None, "No done/termination key found in transition"
             self.done_key = done_key
 
+        # An episode that ends on the first transition has no successors to accumulate
+        if first_transition[self.done_key].bool().any():
+            return first_transition
+
         # Start with reward from first transition
         n_step_reward: torch.Tensor = first_transition[self.reward_key]
         n_step_reward = n_step_reward.clone()
